@@ -21,7 +21,13 @@ META = dict(
     technique='Lean 4 invariant proof by induction over operation sequences + per-operation correspondence with collada.util.IndexedList',
 )
 LEAN_MODULES = ['Pyc.Model.IndexedList']
-IDS = ['a', 'b', 'c', 'd']
+IDS = ['a', 'b', 'c', 'd', '']       # the empty string is an id like any other (a key that is falsy)
+
+
+def tok(i):
+    """an id as a word of the line protocol"""
+    return i if i != '' else '%'
+
 LIBS = ['geometries', 'controllers', 'animations', 'lights', 'cameras', 'images', 'effects',
         'materials', 'nodes', 'scenes']
 
@@ -32,7 +38,11 @@ class O(object):
         self.id = id
 
     def __repr__(self):
-        return '%d:%s' % (self.uid, self.id)
+        return '%d:%s' % (self.uid, tok(self.id))
+
+    def __len__(self):
+        # library elements may be containers that are empty (a Morph without targets, a Skin without joints): such an element is falsy
+        return 0 if self.uid % 3 == 0 else 2
 
 
 def gen_sequence(rng, maxops):
@@ -95,11 +105,11 @@ def gen_sequence(rng, maxops):
 
 
 def fo(o):
-    return '%d:%s' % (o[0], o[1])
+    return '%d:%s' % (o[0], tok(o[1]))
 
 
 def fa(a):
-    return '%s:%s' % (a[0], a[1])
+    return '%s:%s' % (a[0], tok(a[1]) if a[0] == 'k' else a[1])
 
 
 def fb(b):
@@ -125,7 +135,7 @@ def op_line(op):
     if k == 'pop':
         return 'pop' if op[1] is None else 'pop %s' % fa(op[1])
     if k == 'removekey':
-        return 'removekey %s' % op[1]
+        return 'removekey %s' % tok(op[1])
     if k == 'clear':
         return 'clear'
     if k == 'imul':
@@ -166,7 +176,7 @@ class Impl(object):
     def state(self):
         L = self.lst()
         items = ','.join(str(o.uid) for o in list.__iter__(L))
-        idx = ','.join(sorted('%s:%d' % (k, v.uid) for k, v in L._index.items()))
+        idx = ','.join(sorted('%s:%d' % (tok(k), v.uid) for k, v in L._index.items()))
         return 'items=%s index=%s' % (items, idx)
 
     def shadow_apply(self, op):
